@@ -285,7 +285,34 @@ def _depth_meta(doc: int, limit: int, v: bool, entry: int) -> bool:
     return result(ok, depth > LIM)
 
 
+def _depth_symbolic_limit(d1: int, w0: int, d2: int, limit: int, entry: int) -> bool:
+    """
+    pre: 0 <= d1 <= DMAX and 0 <= w0 <= 2 and 0 <= d2 <= 3 and 0 <= entry <= 1
+    pre: -(10**6) <= limit <= 10**6
+    post: _
+    """
+    # DATA-symbolic: the limit is a z3 integer that flows through the real rule (traced); the operation is concrete. Every comparison the rule makes with the
+    # limit is decided by the solver: the operation is flagged exactly when its depth exceeds the limit, for EVERY limit in the range (incl. 0 and negatives)
+    D1, W0, D2, E = concrete_int(d1, 0, DMAX), concrete_int(w0, 0, 2), concrete_int(d2, 0, 3), concrete_int(entry, 0, 1)
+    with untraced():
+        frags = []
+        sels = [chain_text(D1, W0, 0, 0, 0, "a", frags, "x"), chain_text(D2, 0, 0, 0, 0, "z", frags, "y")]
+        doc = parse("query Q { %s keep }\n%s" % (" ".join(sels), "\n".join(frags)))
+        depth = max(D1, D2)
+        schema = rule_schema()
+    rule = MaxDepthValidationRule(limit)
+    errors = rule(schema, doc, {}) if E == 0 else rule(schema, doc)
+    flagged = len(errors) > 0
+    return result(flagged == (depth > limit) and len(errors) <= 1, flagged)
+
+
 CONDITIONS = [
+    Cond(
+        name="depth_symbolic_limit", fn=_depth_symbolic_limit, quick=200, thorough=400, per_path=60,
+        bound="the LIMIT is a symbolic integer, abs(limit) <= 10**6 (z3 Int; the bound only limits the digit-count forks of the message formatting), flowing through the real rule under tracing x operations of two branches (depths 0..DMAX and 0..3, direct / fragment / inline "
+              "spellings) x rule called with and without a variables argument: flagged (exactly one error) iff depth > limit, for every limit incl. 0 and the negatives",
+        symbolic={"limit": "data: the configured limit", "d1,w0,d2,entry": "choice"}, witness={"d1": 2, "w0": 0, "d2": 1, "limit": 1, "entry": 0},
+    ),
     Cond(
         name="depth_meta", fn=_depth_meta, quick=60, thorough=60,
         bound="%d operations whose deepest path runs through meta-fields (__schema / __type at the root, aliased, inside fragments, switched by a variable; __typename leaves) x every limit -1..6 x the rule called directly or as a validator of "
